@@ -80,6 +80,20 @@ DERIVED = [
      'grammar c08e extends c08d\noverride T = "y" | N | Par\nPar = "(" >> start << ")"\nclass E {}\n',
      ['start', 'T', 'N', 'Par', 'E'], 'xy1( )'),
 ]
+# chains of three grammars, with the same grammar written without inheritance: an entry point inherited from the
+# grandparent is fixed by the rule's match IN THE DERIVED GRAMMAR (its overrides included)
+CHAINS = [
+    (['grammar c08f\nstart = Pair+\nPair = [Item, Item]\nItem = "a"\nSolo = Item << "!"?\n',
+      'grammar c08g extends c08f\nExtra = "!" >> Item\n'],
+     'grammar c08h extends c08g\noverride Item = "c"\nMore = Pair | Extra\n',
+     ['start', 'Pair', 'Item', 'Solo', 'Extra', 'More'], 'ac!',
+     'start = Pair+\nPair = [Item, Item]\nItem = "c"\nSolo = Item << "!"?\nExtra = "!" >> Item\nMore = Pair | Extra\n'),
+    (['grammar c08i\nignore " "\nstart = L\nL = (W // ",")\nW = /[ab]+/\n',
+      'grammar c08j extends c08i\noverride W = /[abc]+/ | Q\nQ = "(" >> L << ")"\n'],
+     'grammar c08k extends c08j\noverride Q = "[" >> L << "]"\n',
+     ['start', 'L', 'W', 'Q'], 'ac,[] ',
+     'ignore " "\nstart = L\nL = (W // ",")\nW = /[abc]+/ | Q\nQ = "[" >> L << "]"\n'),
+]
 
 
 def derived_stream(R):
@@ -100,16 +114,18 @@ def derived_stream(R):
             return ('error', e.position.index)
         except Exception as e:                  # noqa
             return ('exception', type(e).__name__)
-    for base, child, entries, alpha in DERIVED + PREDICATED:
+    for base, child, entries, alpha, flat in [x + (None,) for x in DERIVED + PREDICATED] + CHAINS:
         try:
-            if base is not None:
-                Grammar(base)
+            for b in (base if isinstance(base, list) else [base]):
+                if b is not None:
+                    Grammar(b)
             g = Grammar(child)
+            gflat = Grammar(flat) if flat else None
         except Exception as e:                  # noqa
             R.counterexample('derived', 'derived-grammar-rejected', {'base': base, 'child': child}, 'a module', repr(e)[:200])
             continue
         texts = ['']
-        for n in range(1, 4):
+        for n in range(1, 4 if len(alpha) > 4 else 5):
             texts += [''.join(p) for p in itertools.product(alpha, repeat=n)]
         for entry in [None] + entries:
             for t in texts:
@@ -118,6 +134,12 @@ def derived_stream(R):
                     case = {'base': base, 'child': child, 'entry': entry or 'parse', 'text': t, 'pos': pos}
                     R.count('derived', (child, entry, t, pos), nontrivial=nf[0] == 'return')
                     bad = None
+                    if gflat is not None:
+                        want = (call(gflat, entry, t, pos, False), call(gflat, entry, t, pos, True))
+                        if want != (nf, fu):
+                            R.counterexample('derived', 'entry-point-differs-from-the-grammar-without-inheritance', dict(case, flat=flat),
+                                             {'fullparse=False': want[0], 'fullparse=True': want[1]}, {'fullparse=False': nf, 'fullparse=True': fu})
+                            continue
                     if nf[0] == 'exception' or fu[0] == 'exception':
                         R.counterexample('derived', 'exception-escapes:' + (nf[1] if nf[0] == 'exception' else fu[1]), case,
                                          'return / PartialParseError / ParseError', {'fullparse=False': nf, 'fullparse=True': fu})
